@@ -47,7 +47,7 @@ fn bare_power_negative(dst: &ct::TypeInfo, src_space: Space, x: &V3) -> bool {
     lin.iter().any(|c| *c < 1e-3 * scale)
 }
 
-/// Known-finding classification: white (all RGB components within 1e-6 of 1 according to the model)
+/// Known-finding classification: a colour whose HSL lightness is within 1e-6 of 1 according to the model
 /// converted into HSL: rounding puts a component just above 1 and the saturation divisor 2 - (max+min)
 /// becomes zero.
 fn hsl_white_overshoot(dst: &ct::TypeInfo, src_space: Space, x: &V3) -> bool {
@@ -61,7 +61,10 @@ fn hsl_white_overshoot(dst: &ct::TypeInfo, src_space: Space, x: &V3) -> bool {
         return false;
     }
     let rgb = Space::Rgb(std).from_xyz(src_space.to_xyz(*x));
-    rgb.iter().all(|c| (*c - 1.0).abs() <= 1e-6)
+    // the f32 divisor (1 - max) + (1 - min) can only round to exactly 0 when the model's divisor is within a few f32
+    // roundings of 0, i.e. the HSL lightness is within 1e-6 of 1 (the same bound the C02 / C17 classes use)
+    let (mx, mn) = (rgb[0].max(rgb[1]).max(rgb[2]), rgb[0].min(rgb[1]).min(rgb[2]));
+    ((1.0 - mx) + (1.0 - mn)).abs() <= 2e-6
 }
 
 fn main() {
